@@ -92,7 +92,7 @@ P10(n) == IF n = 0 THEN <<1>> ELSE N!NatMulSmall(P10(n - 1), 10)
 FloatOfText(s) == LET d == DotAt(s)
                       ip == IF d = 0 THEN s ELSE SubSeq(s, 1, d - 1)
                       fp == IF d = 0 THEN "" ELSE SubSeq(s, d + 1, Len(s)) IN
-                  IF ~AllDigits(ip \o fp) \/ Len(ip \o fp) > 30 THEN [ok |-> FALSE]
+                  IF ~AllDigits(ip \o fp) \/ Len(ip \o fp) > 400 THEN [ok |-> FALSE]
                   ELSE N!RoundRat(FALSE, N!NatOfDec(ip \o fp), P10(Len(fp)), 0)
 (* Display of a byte: 0b followed by its binary digits without leading zeros *)
 RECURSIVE BinText(_, _, _)
